@@ -127,6 +127,13 @@ fn high_patterns(bits: u32) -> Vec<u128> {
         v.push(mask & !0xFFFF_FFFFu128); // upper half ones, bits 16..32 zero
         v.push(0xFFFF_0000u128); // bits 16..32 ones only
     }
+    // all ones above every half / quarter boundary of the width (a sign extension whose lower part is
+    // NOT negative: "upper half is -1, so hand the lower half to the narrower conversion")
+    for k in [32u32, 48, 64, 96] {
+        if k < bits {
+            v.push(mask & !((1u128 << k) - 1));
+        }
+    }
     v.sort();
     v.dedup();
     v
